@@ -57,6 +57,27 @@ fn pats() -> Vec<Pat> {
                 ("xy\ny\nxy", vec![vec![Some("xy"), Some("x"), Some("y")], vec![Some("y"), None, Some("y")], vec![Some("xy"), Some("x"), Some("y")]], vec!["", "\n", "\n", ""]),
             ],
         },
+        // a group captured on a path that is abandoned contributes nothing
+        Pat {
+            text: "(?:x|(a))b(c)",
+            flags: "",
+            groups: 2,
+            inputs: vec![
+                ("q", vec![], vec!["q"]),
+                ("abxbc", vec![vec![Some("xbc"), None, Some("c")]], vec!["ab", ""]),
+                ("abc-xbc", vec![vec![Some("abc"), Some("a"), Some("c")], vec![Some("xbc"), None, Some("c")]], vec!["", "-", ""]),
+            ],
+        },
+        Pat {
+            text: "(?:a|ab)(?:x|(b))d",
+            flags: "",
+            groups: 1,
+            inputs: vec![
+                ("q", vec![], vec!["q"]),
+                ("abxd", vec![vec![Some("abxd"), None]], vec!["", ""]),
+                ("abd.abxd", vec![vec![Some("abd"), Some("b")], vec![Some("abxd"), None]], vec!["", ".", ""]),
+            ],
+        },
  Pat {
             flags: "",
             text: "ab",
